@@ -1117,4 +1117,58 @@ def shortcut_exact(repo: Repo) -> RuleRun:
 shortcut_exact.rule_id = "C03.SHORTCUT-EXACT"
 
 
-RULES = [registry_agreement, closure, invert_complete, validation_siblings, dimensions, bracket_siblings, unit_ratio_tests, copy_well_posed, no_stale_lazy_cache, reject_not_repair, no_memo, solver_tolerance, no_rounding, ratio_rejection, count_rounds_up, count_integral, shortcut_exact]
+# --------------------------------------------------------------------------------------------
+def single_cell(repo: Repo) -> RuleRun:
+    """'... a given first/last cell size exactly when count is given': one cell on an edge is as long as the edge - first and last
+    cell size both equal the length, the ratio is 1. The two relations that solve the ratio from a count and a size are siblings:
+    both accept (count 1, size = length) and both return 1 (exact rational evaluation; lengths 1, 3/7 and 25)."""
+    from fractions import Fraction
+
+    from .. import exact
+
+    r = RuleRun(PROP, "C03.SINGLE-CELL", floor=6, what="get_c2c_expansion__count__start_size / __end_size accept a single cell as long as the edge and return the ratio 1")
+    n = 0
+    for fn in relation_functions(repo):
+        if not (fn.name.startswith("get_c2c_expansion__count__") and fn.name.endswith("_size")):
+            continue
+        for length in (Fraction(1), Fraction(3, 7), Fraction(25)):
+
+            def hook(ev, call, name):
+                nm = (name or "").split(".")[-1]
+                if nm == "brentq":
+                    return Sym("root")
+                if nm == "eval" and len(call.args) == 1:
+                    txt = ev.eval(call.args[0])
+                    if isinstance(txt, str):
+                        return bool(eval(compile(ast.parse(txt, mode="eval"), "<cond>", "eval"), {"__builtins__": {}}))
+                if nm == "isinstance":
+                    return True
+                if nm == "float" and len(call.args) == 1 and isinstance(ev.eval(call.args[0]), str):
+                    return float(ev.eval(call.args[0]))
+                return NO_MATCH
+
+            ev = exact.evaluator(repo, fn.module, extra=hook)
+            n += 1
+            try:
+                got = ev.call_funcinfo(fn, [exact.c(length), 1, exact.c(length)])
+            except Raised as err:
+                r.bad(
+                    fn,
+                    f"{fn.name}(length={length}, count=1, size={length}) raises {err.exc_name}: a single cell as long as the edge is the one realisable request with count 1, and the sibling relation for the "
+                    "other end accepts it - Chop(count=1, preserve='start_size') cannot be written, and with preserve='end_size' it depends on the corner numbering of the neighbour",
+                    fn.node,
+                    key=f"single:{length}",
+                )
+                continue
+            except NotEvaluable as err:
+                raise AnalysisError(f"{fn.name}(length={length}, count=1, size={length}) not evaluable over exact rationals: {err}") from err
+            val = exact.value(got) if isinstance(got, exact.Rat) else got
+            r.check(val == 1, fn, f"length {length}: one cell -> ratio 1", f"{fn.name}(length={length}, count=1, size={length}) returns {val!r}; one cell has ratio 1", fn.node, key=f"single:{length}")
+    r.require(n >= 6, f"only {n} single-cell scenarios found")
+    return r
+
+
+single_cell.rule_id = "C03.SINGLE-CELL"
+
+
+RULES = [registry_agreement, closure, invert_complete, validation_siblings, dimensions, bracket_siblings, unit_ratio_tests, copy_well_posed, no_stale_lazy_cache, reject_not_repair, no_memo, solver_tolerance, no_rounding, ratio_rejection, count_rounds_up, count_integral, shortcut_exact, single_cell]
